@@ -55,6 +55,18 @@ def to_step(s):
     return {"a": s["a"], "h": s["h"], "k": s["k"], "x": {"t": s["x"]["t"], "v": s["x"]["v"]}, "src": s["src"], "i": s["i"], "reads": reads}
 
 
+class PushRefCtx:
+    """mismatch reporter for the behaviours of CApi_pushref.cfg: what a dangling element handle reports after
+    ArrayPush (without ASan: stale or empty values) is the same finding as the ASan report"""
+    def __init__(self, ctx):
+        self.ctx = ctx
+
+    def mismatch(self, sig, what, replay=None):
+        if sig.startswith("json:apush:"):
+            sig = "handle:array-element-ref:use-after-free-after-ArrayPush"
+        return self.ctx.mismatch(sig, what, replay)
+
+
 def check_read(ctx, exp, got, step, case):
     """one handle: spec observation `exp` vs what the C API reported `got`"""
     tag = exp["tag"]
@@ -153,6 +165,8 @@ def run(ctx):
         if not bs:
             raise Broken("no behaviours from %s" % cfg)
         counts[cfg] = len(bs)
+        if "pushref" in cfg:
+            pushref_keys = set(json.dumps([to_step(s) for s in b], sort_keys=True) for b in bs)
         behaviours += bs
     seen, uniq = set(), []
     for b in behaviours:
@@ -191,8 +205,9 @@ def run(ctx):
             exp = [e for e in s["obs"] if e["tag"] != "dead"]
             if len(exp) != len(ob["reads"]):
                 raise Broken("replayer returned %d reads for %d requested" % (len(ob["reads"]), len(exp)))
+            rctx = PushRefCtx(ctx) if json.dumps(cases[i]["steps"], sort_keys=True) in pushref_keys else ctx
             for e, g in zip(exp, ob["reads"]):
-                check_read(ctx, e, g, s, cases[i])
+                check_read(rctx, e, g, s, cases[i])
                 reads += 1
             if s["a"] == "construct" and ob.get("amb") != "ok":
                 ctx.mismatch("construct:ambiguous:%s" % ob.get("amb"), "occa%s() differs from the sized constructor for %s" % (ob.get("amb"), s["x"]), [cases[i]])
